@@ -95,6 +95,19 @@ func (in *objIndex) UnmarshalJSON(data []byte) error {
 	in.ObjectIds = tmp.ObjectIds
 	in.uuids = make(map[string]uint64)
 
+	// a damaged file may miss some parts of the index
+	if in.Fields == nil {
+		in.Fields = make(map[string]*fieldIndex)
+	}
+	if in.ObjectIds == nil {
+		in.ObjectIds = make(map[uint64]string)
+	}
+	for fn, fi := range in.Fields {
+		if fi == nil {
+			return fmt.Errorf("field index %s is null", fn)
+		}
+	}
+
 	// we search next index to use for object
 	for i, uuid := range in.ObjectIds {
 		if i > in.i {
@@ -242,6 +255,12 @@ func (in *objIndex) control() error {
 		}
 		if in.Fields[fn].Len() != in.len() {
 			return fmt.Errorf("index and fields index must have the same size, len(index)=%d len(index[%s])=%d", in.len(), fn, in.Fields[fn].Len())
+		}
+		// sizes being equal, every object must have its entry
+		for id := range in.ObjectIds {
+			if _, ok := in.Fields[fn].objectIds[id]; !ok {
+				return fmt.Errorf("field index %s has no entry for object id %d", fn, id)
+			}
 		}
 	}
 	return nil
